@@ -27,8 +27,18 @@ func main() {
 	explain := flag.String("explain", "", "print a replay file")
 	list := flag.Bool("list", false, "list properties")
 	vocabOut := flag.Bool("vocab", false, "print the function vocabulary of the tree (for spec/vocabulary.txt)")
+	declsOut := flag.Bool("decls", false, "print the reference declarations of the tree (for spec/decls.txt)")
 	keepNorm := flag.Bool("keep-normalised", false, "print and keep the directory of the normalised copy (debugging)")
 	flag.Parse()
+	if *declsOut {
+		pkgs, err := loadSyntax(*repo)
+		if err != nil {
+			fmt.Println(err)
+			os.Exit(2)
+		}
+		printDecls(pkgs)
+		return
+	}
 	if *vocabOut {
 		pkgs, err := loadSyntax(*repo)
 		if err != nil {
@@ -104,7 +114,7 @@ func main() {
 	normNote := ""
 	if vocab, verr := readVocabulary(*verif); verr != nil {
 		normNote = "vocabulary not readable (" + verr.Error() + "): the tree is analysed as it is."
-	} else if ni, nerr := normalise(*repo, vocab); nerr != nil {
+	} else if ni, nerr := normalise(*repo, vocab, func() *refDecls { d, _ := readDecls(*verif); return d }()); nerr != nil {
 		normNote = "the normalised view could not be built (" + nerr.Error() + "): the tree is analysed as it is."
 		if ni != nil {
 			os.RemoveAll(ni.dir)
@@ -164,6 +174,9 @@ func runProp(P *Prog, prop string, f func(*Run), tierV string, analysed string, 
 	curProg = P
 	if norm != nil {
 		P.norm = norm
+		if len(norm.Renamed) > 0 {
+			R.note("renamed declarations put back under their reference names: " + strings.Join(norm.Renamed, "; ") + ".")
+		}
 		R.note(fmt.Sprintf("normalised view: %d functions outside the reference vocabulary (%s); %d call sites expanded in %d rounds, %d helpers removed after expansion; not expanded: %v.", len(norm.NewFuncs), strings.Join(norm.NewFuncs, ", "), len(norm.Inlined), norm.Rounds, len(norm.Removed), norm.Left))
 	}
 	if normNote != "" {
